@@ -192,6 +192,35 @@ theorem gene_strand_is_a_majority_strand (g : GeneIn) (s : Strand)
     (h : geneStrand (g.txs.map (·.strand)) = some s) : s ∈ g.majorityStrands :=
   geneStrand_majority g s h
 
+/-- the gene feature's single interval: from the smallest exon start to the largest exon end over all transcripts
+    (both attained), for any number of transcripts with good exon layouts. -/
+theorem gene_feature_spans_all_transcripts (txs : List Tx) (hne : txs ≠ [])
+    (hgood : ∀ t ∈ txs, goodBlocks t.exons = true ∧ t.exons ≠ []) :
+    ∃ a b, geneSpan txs = some (a, b) ∧
+      (∀ t ∈ txs, ∀ e ∈ t.exons, a ≤ e.1 ∧ e.2 ≤ b) ∧
+      (∃ t ∈ txs, ∃ e ∈ t.exons, e.1 = a) ∧ (∃ t ∈ txs, ∃ e ∈ t.exons, e.2 = b) :=
+  geneSpan_spec txs hne hgood
+
+/-- the RNA feature of a transcript of a non-coding gene (`rRNA` / `tRNA` / `ncRNA` by the gene's biotype): no
+    partial marks, no `pseudo`, no `codon_start`; its rows are the source blocks AS GIVEN (`chromosome_location`) —
+    with the repair of F-C17c switched on (`Model.Tbl.rnaRowsMerged`), the merged blocks. -/
+theorem rna_feature_rows (g : Gene) (hnc : g.isCoding = false) (table : Int) (pseudo : Bool) (t : Tx)
+    (h : goodBlocks t.exons = true) (hne : t.exons ≠ []) (mc : Option CDS) :
+    ∃ key, txFeatures g table pseudo t (mergedBlocks t.exons) mc
+        = .ok [⟨key, t.strand, if rnaRowsMerged then mergedBlocks t.exons else t.exons, false, false, false, none⟩] ∧
+      (key = "rRNA".toList ∨ key = "tRNA".toList ∨ key = "ncRNA".toList) :=
+  rna_feature g hnc table pseudo t h hne mc
+
+/-- F-C17c witness: `transcript.chromosome_location` keeps the adjacent exons [3,9) [9,12) apart, while the
+    `_location` that `TblGene` merged (and that the mRNA rows use) is the single block [3,12). -/
+theorem rna_rows_source_unmerged_witness :
+    chromosomeBlocks ⟨.minus, [(3, 9), (9, 12)], none, some "lncRNA".toList⟩ = .ok [(3, 9), (9, 12)] ∧
+    mergeExons ⟨.minus, [(3, 9), (9, 12)], none, some "lncRNA".toList⟩ = .ok [(3, 12)] := by
+  refine ⟨chromosomeBlocks_good _ (by decide) (by decide), ?_⟩
+  rw [mergeExons_runs _ (by decide) (by decide)]
+  have : mergedBlocks [(3, 9), (9, 12)] = [(3, 12)] := by decide
+  simp only [this]
+
 /-- for every prefix, step and number of genes: the tags decode as `prefix_<n>` with `n` increasing by exactly the
     step from the step on, and they are pairwise distinct when the step is positive. -/
 theorem locus_tags_increase_by_step_and_are_distinct (pre : List Char) (step n : Nat) :
@@ -277,4 +306,7 @@ example : toLoc (.compound ⟨mergedBlocks [(2, 6), (6, 11), (13, 19)], .plus⟩
     = some ⟨mergedBlocks [(2, 6), (6, 11), (13, 19)], .plus⟩ := by decide
 example : (CDSFrame.TWO).value ≤ (firstLen ⟨mergedBlocks [(2, 6), (6, 11), (13, 19)], .plus⟩ : Int) := by decide
 example : geneStrand ([Strand.minus, .plus, .minus].map id) = some .minus := by decide
+example : geneSpan [⟨.plus, [(5, 9), (9, 12)], none, none⟩, ⟨.minus, [(2, 7), (20, 31)], none, none⟩] = some (2, 31) := by
+  decide
+example : (⟨some "lncRNA".toList, [⟨.plus, [(5, 9), (9, 12)], none, none⟩]⟩ : Gene).isCoding = false := by decide
 end BioCantor.Props.C17
